@@ -193,7 +193,7 @@ func content(cseed int64, name string, size int) []byte {
 func answer(kind string, data []byte, val string, names []string, msg string) map[string]any {
 	sum := sha256.Sum256(data)
 	d := []int{}
-	if len(data) <= 48 {
+	if len(data) <= 32 {
 		for _, x := range data {
 			d = append(d, int(x))
 		}
@@ -201,7 +201,11 @@ func answer(kind string, data []byte, val string, names []string, msg string) ma
 	if names == nil {
 		names = []string{}
 	}
-	return map[string]any{"kind": kind, "n": len(data), "sha": hex.EncodeToString(sum[:8]), "data": d, "val": val, "names": names, "msg": msg}
+	a := map[string]any{"kind": kind, "n": len(data), "sha": hex.EncodeToString(sum[:8]), "data": d, "val": val, "names": names}
+	if msg != "" {
+		a["msg"] = msg // error text: for the reader of the trace, not part of the judged answer
+	}
+	return a
 }
 
 func readAnswer(b objstore.Bucket, r io.ReadCloser, err error, read int) map[string]any {
@@ -370,6 +374,11 @@ func runCase(out *childOut, idx int, id int, c vt.Case) {
 		if !ok {
 			size = -1
 		}
+		if vt.Bool(op["quiet"]) {
+			// priming read that brings the cache into the abstract state of a TLC case: executed, not logged
+			doOp(cb, op)
+			continue
+		}
 		hit, attr := lc.snapshot(name, size, S)
 		ev := head(map[string]any{"ev": "op", "case": id, "i": i, "op": op["op"], "name": name, "off": op["off"], "len": op["len"],
 			"read": op["read"], "rec": op["rec"], "size": size, "S": S, "M": M, "hit": hit, "attrhit": attr,
@@ -401,7 +410,7 @@ func genCases(t *testing.T) []vt.Case {
 	for _, tc := range vt.TLCCases(t) {
 		k := scales[rnd.Intn(len(scales))]
 		n := vt.Int(tc["n"])
-		c := vt.Case{"src": "tlc-" + vt.Str(tc["kind"]), "abs": tc, "k": k, "objs": map[string]any{"a": n * k},
+		c := vt.Case{"src": "tlc-" + vt.Str(tc["kind"]), "k": k, "objs": map[string]any{"a": n * k},
 			"S": vt.Int(tc["S"]) * k, "M": vt.Int(tc["M"]), "mc": 8 * k, "drop": 0, "cseed": rnd.Int63n(1 << 40)}
 		var ops []any
 		switch vt.Str(tc["kind"]) {
@@ -416,7 +425,7 @@ func genCases(t *testing.T) []vt.Case {
 			if plen == 0 {
 				plen = 1
 			}
-			ops = append(ops, map[string]any{"op": "getrange", "name": "a", "off": 0, "len": plen})
+			ops = append(ops, map[string]any{"op": "getrange", "name": "a", "off": 0, "len": plen, "quiet": true})
 			ops = append(ops, evictOp([]string{"subrange"}, "a", keep))
 			if !vt.Bool(tc["attr"]) {
 				ops = append(ops, evictOp([]string{"attrs"}, "a", nil))
@@ -451,7 +460,7 @@ func genCases(t *testing.T) []vt.Case {
 	// seeded random concrete cases
 	names := []string{"a", "b", "dir/c", "dir/d", "dir/sub/e", "zz"}
 	subSizes := []int{1, 2, 3, 7, 16, 100, 1000, 16000, 65536}
-	nrand := vt.Pick(300, 6000)
+	nrand := vt.Pick(120, 2000)
 	for i := 0; i < nrand; i++ {
 		S := subSizes[rnd.Intn(len(subSizes))]
 		maxSize := 40 * S
@@ -608,6 +617,8 @@ func TestC14(t *testing.T) {
 		delete(pend, "_idx")
 		if g, ok := pend["got"].(map[string]any); ok {
 			g["msg"] = "process died: " + firstLines(stderr.String(), 3)
+		} else {
+			t.Fatalf("pending line without got: %v", pend)
 		}
 		tr.Emit(pend)
 		crashes++
